@@ -13,7 +13,8 @@ RULE_TEXT = ("C10-T: obligations over the HIR and the path summaries of the sing
              "T4 typestate of the response buffer along every path segment: run -> is_empty test -> "
              "(write, flush, clear) before any read or back-edge, write only when non-empty; T5 the response buffer "
              "is used only by run/is_empty/write/clear and write's argument is that buffer."
-             " C10-C04X: execute writes a terminator only after a successful query and nothing otherwise (rule C04-X).")
+             " C10-C04X: execute writes a terminator only after a successful query and nothing otherwise (rule C04-X)."
+             " C10-K: the buffer discipline of process (rules K1-K7 of C07). C10-C01X: the handler slot follows the query flag (rule C01-X) - a header in the wrong form executes nothing and writes nothing.")
 
 PROCESS = "microscpi::interface::Interface::process"
 ADAPTER = "microscpi::interface::Adapter::"
@@ -166,6 +167,10 @@ def run(ck):
     # no message is lost between reads (it could then never be answered): the buffer discipline of process (K-rules of C07)
     import c07
     c07.rule_K(ck, lib, "C10-K")
+    # nothing is written for a header in the wrong form (query on a command-only node): the slot rule of C01
+    import c01
+    with ck.under("C01-", "C10-C01"):
+        c01.rule_X(ck, lib)
 
 def response_typestate(ck, exits, res_id, rid):
     """T4: typestate of the response buffer along every path segment."""
